@@ -81,12 +81,15 @@ func randLabels(rng *rand.Rand) map[string]string {
 	switch rng.Intn(4) {
 	case 0:
 	case 1:
-		m["app"] = pick(rng, "a", "b")
+		m["app"] = pick(rng, "a", "b", "a", "b", "ab")
 	case 2:
 		m["tier"] = pick(rng, "x", "y")
 	default:
-		m["app"] = pick(rng, "a", "b")
+		m["app"] = pick(rng, "a", "b", "a", "b", "ab")
 		m["tier"] = pick(rng, "x", "y")
+	}
+	if rng.Intn(12) == 0 {
+		m["App"] = pick(rng, "a", "b") // a key that differs only in case
 	}
 	return m
 }
@@ -142,6 +145,13 @@ func randFilterTerm(rng *rand.Rand, depth int) world.FilterSpec {
 		{Op: "labels", K: "tier", V: "x"}, {Op: "labels", K: "tier", V: "y"},
 		{Op: "nsname", K: "n1", V: ""}, {Op: "nsname", K: "n2", V: ""}, {Op: "nsname", K: "n1", V: "a"},
 		{Op: "null"}, {Op: "all"}, {Op: "fn", K: "tier", V: "x"},
+		// the other constructors of the filter package, and values that are
+		// prefixes / case variants of each other
+		{Op: "labels", K: "app", V: "ab"}, {Op: "labels", K: "App", V: "a"},
+		{Op: "labels2", V: "a|x"}, {Op: "labels2", V: "a|"}, {Op: "labels2", V: "|"}, {Op: "labels2", V: "ab|x"},
+		{Op: "nsnames", V: "n1/a,n2/b"}, {Op: "nsnames", V: "n2/b,n1/a"}, {Op: "nsnames", V: "n1/,n2/a"}, {Op: "nsnames", V: "/a,n-1/a,n/1-a"},
+		{Op: "lsel", K: "app", V: "a"}, {Op: "lsel", K: "app", V: "a|b"}, {Op: "lsel", K: "app", V: "b|a"}, {Op: "lsel", K: "tier", V: "x|y"},
+		{Op: "sel", K: "app", V: "a"}, {Op: "sel", K: "app", V: "ab"},
 	}
 	if depth <= 0 || rng.Intn(3) == 0 {
 		return atoms[rng.Intn(len(atoms))]
